@@ -21,7 +21,8 @@ RULE = ("one PRNG (VERIF_SEED). A case = (initial Root value, reader chains, his
         "insert / remove / reorder through the keyed field's own write guard with readers on items and "
         "item sub-fields, writes to items after each change, segment reports op 3), keyed-exact (at most "
         "one key added and one removed per update, so FieldKeys' hash order cannot matter: raw path "
-        "segments compared, op 2), patch (Patch::patch of structs/options/vectors with partial changes). "
+        "segments compared, op 2), patch (Patch::patch of structs/options/vectors with partial changes), "
+        "keyed-ancestor (a keyed collection reordered through an ancestor's guard: open finding F-C16-e). "
         "A case is non-trivial when at least one write wakes some but not all of the readers; distinct "
         "= distinct case hash.")
 TRUSTED = [
@@ -39,7 +40,8 @@ TRUSTED = [
 ]
 ASSUMPTIONS = [
     "a keyed collection is restructured (insert/remove/reorder) only through its own write guard "
-    "(KeyedSubfield::write, which calls update_keys); writes through ancestors keep its key sequence; "
+    "(KeyedSubfield::write, which calls update_keys); writes through ancestors keep its key sequence "
+    "(otherwise: open finding F-C16-e, exercised by the separate family keyed-ancestor); "
     "an item written through AtKeyed keeps its key; keys within one collection are distinct",
     "effects run on a single-threaded executor that drains all woken effects between two writes; 'woken before' "
     "is observed as the order of first wake-ups at the executor (all schedules) and as run order (FIFO schedule)",
@@ -616,6 +618,63 @@ def gen_keyed_small(rng):
     return mk(init, readers, steps, [], rnd_orders(rng, len(steps)), "keyed", rng)
 
 
+def gen_keyed_ancestor(rng, shrink=False):
+    """OUTSIDE the assumption of the other families (exercises the open finding F-C16-e): a keyed
+    collection is reordered / partly replaced by a write through an ancestor (store, store.m),
+    which does not refresh its keys; then its items are read and written"""
+    init = rich_init(rng)
+    fld = rng.choice([[F(4)], [F(1), F(3)]])
+    tree = init
+    cur = reach(tree, fld)[2]
+    readers = [list(fld)] + [fld + [K(it[0])] + rng.choice([[F(1)], [F(2), F(0)], []]) for it in cur]
+    readers += pick_readers(rng, tree, 2)
+    rng.shuffle(readers)
+    steps = []
+    if rng.random() < 0.5:
+        it = rng.choice(cur)
+        w = fld + [K(it[0]), F(1)]
+        steps.append([0, w, it[1] + 1])
+        tree = set_at(tree, w, it[1] + 1)
+    anc = fld[:-1] if rng.random() < 0.6 else []
+    j, sch, v = reach(tree, anc)
+    cur = reach(tree, fld)[2]
+    new_items = list(cur)
+    if shrink:
+        del new_items[rng.randrange(len(new_items)):]
+    else:
+        while new_items == cur:
+            rng.shuffle(new_items)
+            if rng.random() < 0.3:
+                new_items[rng.randrange(len(new_items))] = keyed_item(rng, fresh_key(rng, set(x[0] for x in cur)))
+    new = set_sub(sch, v, fld[len(anc):], new_items)
+    steps.append([0, anc, new])
+    tree = set_at(tree, anc, new)
+    for _ in range(rng.randint(1, 3)):
+        cur = reach(tree, fld)[2]
+        r = rng.random()
+        if r < 0.6 and cur and not shrink:
+            it = rng.choice(cur)
+            w = fld + [K(it[0]), F(1)]
+            steps.append([0, w, it[1] + 1])
+            tree = set_at(tree, w, it[1] + 1)
+        elif r < 0.8:
+            steps.append([4, rng.randrange(len(readers)), 0])
+        else:
+            steps.append([3, fld, []])
+    it = mk(init, readers, steps, [], [[[], []]] * len(steps), "keyed-ancestor")
+    it["compare"] = not shrink
+    return it
+
+
+def set_sub(sch, v, rel, new):
+    """v with the field at the relative struct path rel replaced"""
+    if not rel:
+        return new
+    out = list(v)
+    out[rel[0][1]] = set_sub(sch[1][rel[0][1]], v[rel[0][1]], rel[1:], new)
+    return out
+
+
 def generate(rng, tier):
     quick = tier == "quick"
     for _ in range(2 if quick else 12):
@@ -634,6 +693,8 @@ def generate(rng, tier):
     for _ in range(6 if quick else 60):
         for it in gen_allpairs(rng):
             yield it
+    for _ in range(40 if quick else 400):
+        yield gen_keyed_ancestor(rng, shrink=rng.random() < 0.25)
 
 
 # ------------------------------------------------------------------------------------------ checks
@@ -682,7 +743,7 @@ def valid_case(item):
                     return False
                 if len(chain) >= 2 and chain[-1] == F(0) and chain[-2][0] == 3:
                     return False
-                if not keys_kept(sch, v, st[2], top=(op == 0)):
+                if item.get("kind") != "keyed-ancestor" and not keys_kept(sch, v, st[2], top=(op == 0)):
                     return False
                 tree = set_at(tree, chain, st[2])
             elif op == 3:
@@ -723,15 +784,16 @@ def keys_kept(sch, old, new, top):
     return True
 
 
-def oracle(item, impl):
+def _oracle(item, impl):
     """independent of the Coq model: replays the history on a plain tree, decides from the
-    prefix relation on accessor chains which readers must re-run, and what they must see"""
+    prefix relation on accessor chains which readers must re-run, and what they must see.
+    Returns None or (message, {"step": index or None, "reader": chain or None, "what": tag})"""
     if isinstance(impl, str):
-        return "panic / harness error: " + impl[:200]
+        return ("panic / harness error: " + impl[:200], dict(step=None, reader=None, what="panic"))
     c = item["case"]
     tree, readers, steps, sched = c[1], [tup(r) for r in c[2]], c[3], c[4]
     if len(impl) != len(steps) + 2:
-        return "observation has %d phases for %d steps" % (len(impl), len(steps))
+        return ("observation has %d phases for %d steps" % (len(impl), len(steps)), dict(step=None, reader=None, what='other'))
 
     def expect_obs(tr, rd):
         j, _, v = reach(tr, [list(s) for s in rd])
@@ -742,11 +804,11 @@ def oracle(item, impl):
     ph = impl[0]
     ran = [r[0] for r in ph[1]]
     if sorted(ran) != list(range(len(readers))):
-        return "initial phase: readers that ran = %r" % (ran,)
+        return ("initial phase: readers that ran = %r" % (ran,), dict(step=None, reader=None, what='other'))
     for e, obs in ph[1]:
         want = expect_obs(tree, readers[e])
         if obs != want:
-            return "reader %d (%s) initially saw %r, the store holds %r" % (e, name(readers[e]), obs, want)
+            return ("reader %d (%s) initially saw %r, the store holds %r" % (e, name(readers[e]), obs, want), dict(step=None, reader=readers[e], what='value'))
         cur[e] = readers[e] if len(want) == 2 else None
 
     for i, st in enumerate(steps):
@@ -776,19 +838,19 @@ def oracle(item, impl):
                 tree = set_at(tree, chain, st[2])
                 expected = set(e for e, p in cur.items() if p is not None and any(related(w, p) for w in written))
                 if ph[2] != 1:
-                    return label + ": no write guard obtained"
+                    return (label + ": no write guard obtained", dict(step=i, reader=tup(st[1]), what='noguard'))
         else:
             expected = set()
         ran = [r[0] for r in runs]
         for e in sorted(expected):
             if e not in ran:
-                return "%s: reader %d of %s was not notified" % (label, e, name(cur[e]))
+                return ("%s: reader %d of %s was not notified" % (label, e, name(cur[e])), dict(step=i, reader=cur[e], what='missed'))
         for e in ran:
             if e not in expected:
                 what = name(cur[e]) if cur.get(e) is not None else "nothing in the store (chain %s cut short)" % name(readers[e])
-                return "%s: reader %d of %s was notified" % (label, e, what)
+                return ("%s: reader %d of %s was notified" % (label, e, what), dict(step=i, reader=(cur.get(e) or readers[e]), what='spurious'))
         if sorted(set(wakes)) != sorted(set(ran)):
-            return "%s: woken tasks %r but effects that ran %r" % (label, wakes, ran)
+            return ("%s: woken tasks %r but effects that ran %r" % (label, wakes, ran), dict(step=i, reader=None, what='other'))
         # ancestors of the written field are woken before its descendants
         if order_path is not None:
             anc = [e for e in expected if len(cur[e]) < len(order_path)]
@@ -796,27 +858,32 @@ def oracle(item, impl):
             for a in anc:
                 for d in desc:
                     if wakes.index(a) > wakes.index(d):
-                        return "%s: reader %d of descendant %s woken before reader %d of ancestor %s" % (
-                            label, d, name(cur[d]), a, name(cur[a]))
+                        return ("%s: reader %d of descendant %s woken before reader %d of ancestor %s" % (
+                            label, d, name(cur[d]), a, name(cur[a])), dict(step=i, reader=cur[d], what='order'))
                     if not sched and ran.index(a) > ran.index(d):
-                        return "%s: reader %d of descendant %s ran before reader %d of ancestor %s" % (
-                            label, d, name(cur[d]), a, name(cur[a]))
+                        return ("%s: reader %d of descendant %s ran before reader %d of ancestor %s" % (
+                            label, d, name(cur[d]), a, name(cur[a])), dict(step=i, reader=cur[d], what='order'))
         # every notified reader sees the value that was written
         for e, obs in runs:
             want = expect_obs(tree, readers[e])
             if obs != want:
-                return "%s: reader %d (%s) saw %r, the store holds %r" % (label, e, name(readers[e]), obs, want)
+                return ("%s: reader %d (%s) saw %r, the store holds %r" % (label, e, name(readers[e]), obs, want), dict(step=i, reader=readers[e], what='value'))
             cur[e] = readers[e] if len(want) == 2 else None
         if op == 3 and isinstance(ph[2], list):
             pattern, same = ph[2]
             if pattern != list(range(len(pattern))):
-                return "%s: two live keys of %s share a path segment (pattern %r)" % (label, name(st[1]), pattern)
+                return ("%s: two live keys of %s share a path segment (pattern %r)" % (label, name(st[1]), pattern), dict(step=i, reader=tup(st[1]), what='segments'))
             if any(b == 0 for b in same):
-                return "%s: a key of %s changed its path segment while it stayed in the collection (%r for keys %r)" % (
-                    label, name(st[1]), same, st[2])
+                return ("%s: a key of %s changed its path segment while it stayed in the collection (%r for keys %r)" % (
+                    label, name(st[1]), same, st[2]), dict(step=i, reader=tup(st[1]), what='segments'))
     if impl[-1] != tree:
-        return "final store value %r differs from the replayed history %r" % (impl[-1], tree)
+        return ("final store value %r differs from the replayed history %r" % (impl[-1], tree), dict(step=None, reader=None, what='final'))
     return None
+
+
+def oracle(item, impl):
+    r = _oracle(item, impl)
+    return None if r is None else r[0]
 
 
 def nontrivial(item, model):
@@ -829,8 +896,56 @@ def nontrivial(item, model):
     return False
 
 
+KEYED_FIELDS = [((0, 4),), ((0, 1), (0, 3))]
+
+
+def stale_fields(item):
+    """keyed fields whose key sequence was changed by a write / patch through a strict ancestor
+    (so that update_keys() did not run): {field chain: index of the first such step}"""
+    c = item["case"]
+    tree, out = c[1], {}
+    for i, st in enumerate(c[3]):
+        if st[0] not in (0, 1) or not isinstance(st[1], list):
+            continue
+        chain = st[1]
+        j, sch, v = reach(tree, chain)
+        if j != len(chain) or not well_formed(sch, st[2]):
+            continue
+        new_tree = set_at(tree, chain, st[2])
+        for kf in KEYED_FIELDS:
+            if len(chain) < len(kf) and is_prefix(tup(chain), kf):
+                old_ids = [x[0] for x in reach(tree, [list(x) for x in kf])[2]]
+                new_ids = [x[0] for x in reach(new_tree, [list(x) for x in kf])[2]]
+                if old_ids != new_ids:
+                    out.setdefault(kf, i)
+        tree = new_tree
+    return out
+
+
 def classify(item, impl, model):
-    return None   # every finding of C16 is repaired; nothing is open
+    """F-C16-e: the failure is a consequence of stale FieldKeys — a keyed collection was
+    restructured through an ancestor's write guard and the failing reader / writer goes
+    through that collection afterwards (wrong item read or written, item not found, index
+    out of bounds)"""
+    r = _oracle(item, impl)
+    if r is None:
+        return None
+    msg, info = r
+    stale = stale_fields(item)
+    if not stale:
+        return None
+    what = info["what"]
+    if what == "panic":
+        return "F-C16-e" if "index out of bounds" in msg else None
+    if what == "final":
+        return "F-C16-e"
+    if what in ("value", "noguard", "missed", "spurious", "segments"):
+        rd, step = info["reader"], info["step"]
+        for kf, first in stale.items():
+            if rd is not None and is_prefix(kf, rd) and (step is None or step >= first) and \
+                    (len(rd) > len(kf) or what == "segments"):
+                return "F-C16-e"
+    return None
 
 
 def describe(item):
